@@ -533,7 +533,11 @@ def block(draw, env, depth, min_size=1, max_size=4, loop=False, in_sub=False):
     n = draw(st.integers(min_size, max_size))
     out = []
     for _ in range(n):
-        out.append(draw(stmt(env, depth, loop=loop, in_sub=in_sub)))
+        nxt = draw(stmt(env, depth, loop=loop, in_sub=in_sub))
+        if nxt["k"] == "seq":  # a motif made of several consecutive statements
+            out.extend(nxt["body"])
+        else:
+            out.append(nxt)
         if out[-1]["k"] in ("break", "continue", "return"):
             break
         if out[-1]["k"] == "await" and out[-1]["c"] == "false":
@@ -563,9 +567,13 @@ def stmt(draw, env, depth, loop=False, in_sub=False):
             choices += ["return"]
         if depth >= 2:
             choices += ["motif"] * 3
+    if env.flavor in ("seq", "coro") and (env.var_vecs or env.var_bits or getattr(env, "var_bools", None)):
+        choices += ["snapshot"]
     k = draw(st.sampled_from(choices))
     if k == "motif":
         return draw(motif(env, depth, in_sub))
+    if k == "snapshot":
+        return draw(snapshot_motif(env))
     if k == "simple":
         return draw(simple_stmt(env))
     if k == "if":
@@ -653,6 +661,45 @@ def stmt(draw, env, depth, loop=False, in_sub=False):
     if k == "return":
         return {"k": "return", "e": None}
     raise AssertionError(k)
+
+
+@st.composite
+def snapshot_motif(draw, env):
+    """value derived from a Variable, then the Variable is re-assigned, then the saved value is used:
+    `@=` takes effect immediately, the saved intermediate must still hold the old value"""
+    kinds = (["bool"] if getattr(env, "var_bools", None) else []) + (["bit"] if env.var_bits else []) + (["u"] if env.var_vecs else [])
+    kind = draw(st.sampled_from(kinds))
+    sig_b = [n for n in env.sig_bits if n not in env.push]
+    sig_v = [n for n in env.sig_vecs if n not in env.push]
+    if kind == "bool":
+        v = draw(st.sampled_from(env.var_bools))
+        name = env.fresh("tq")
+        save = {"k": "bind", "bind": name, "e": ["tobool", ["var", v]] if draw(st.booleans()) else ["cnot", ["var", v]]}
+        upd = {"k": "var", "t": {"name": v}, "e": draw(cond_expr(env.inputs_only(), 1))}
+        env.loc_bools.append(name)
+        use_e = ["loc", name, 1]
+        tgt = sig_b
+    elif kind == "bit":
+        v = draw(st.sampled_from(env.var_bits))
+        name = env.fresh("tb")
+        save = {"k": "bind", "bind": name, "e": ["not", ["var", v]]}
+        upd = {"k": "var", "t": {"name": v}, "e": draw(bit_expr(env.inputs_only(), 1))}
+        env.loc_bits.append(name)
+        use_e = ["loc", name, 1]
+        tgt = sig_b
+    else:
+        v = draw(st.sampled_from(env.var_vecs))
+        name = env.fresh("tv")
+        save = {"k": "bind", "bind": name, "e": ["add", ["var", v], ["const", draw(st.integers(1, 3))]]}
+        upd = {"k": "var", "t": {"name": v}, "e": draw(vec_expr(env.inputs_only(), 1))}
+        env.loc_vecs.append(name)
+        use_e = ["loc", name]
+        tgt = sig_v
+    if tgt:
+        use = {"k": "assign", "t": {"name": draw(st.sampled_from(tgt))}, "e": use_e}
+    else:
+        use = {"k": "pass"}
+    return {"k": "seq", "body": [save, upd, use]}
 
 
 @st.composite
